@@ -8,6 +8,7 @@ import VerdeModel.Model.Windows
 import VerdeModel.Model.Grid
 import VerdeModel.Model.CV
 import VerdeModel.Model.Score
+import VerdeModel.Model.Gridder
 namespace Verde
 open Val
 
@@ -34,6 +35,7 @@ def parseProj (kind : String) (ps : List Rat) : Option Proj :=
   | "cube", [k] => some (.cube k)
   | "square", [] => some .square
   | "shear", [k] => some (.shear k)
+  | "lin", [a, b, c, d, e, f] => some (.lin a b c d e f)
   | _, _ => none
 
 def opsCoords (op : String) (a : List Val) : Option Val :=
@@ -229,8 +231,51 @@ def opsScore (op : String) (a : List Val) : Option Val :=
       pure (toVal (metric s (← argAt (List Rat) a 1) (← argAt (List Rat) a 2) (← argAt (Option (List Rat)) a 3)))
   | _ => none
 
+def projOpt (v : Val) : Option (Option Proj) :=
+  match v with
+  | .atom "none" => some none
+  | .list [.atom kind, ps] => do let ps ← (fromVal ps : Option (List Rat)); (parseProj kind ps).map some
+  | _ => none
+
+def coefsOf (v : Val) : Option (List (Rat × Rat × Rat × Rat)) := do
+  let rows ← (fromVal v : Option (List (List Rat)))
+  rows.mapM fun r => match r with | [a, b, c, d] => some (a, b, c, d) | _ => none
+
+def coordsOpt (v : Val) : Option (Option (CoordArr × CoordArr × List Arr2)) :=
+  match v with
+  | .atom "none" => some none
+  | .list [e, n, ex] => do pure (some (← coordArrOf e, ← coordArrOf n, ← (fromVal ex : Option (List Arr2))))
+  | _ => none
+
+def tableVal (t : Except Err (List (String × List Rat))) : Val := toVal t
+
+def opsGridder (op : String) (a : List Val) : Option Val :=
+  match op with
+  | "bg_grid" => do
+      let coefs ← coefsOf (← a[0]?)
+      let args : GridArgs := ⟨← argAt (Option (List Rat)) a 1, ← argAt (Option (List Rat)) a 2,
+        ← argAt (Option (Nat × Nat)) a 3, ← argAt (Option (List Rat)) a 4, ← argAt Adjust a 5, ← argAt Bool a 6,
+        ← argAt (List Rat) a 7, ← coordsOpt (← a[8]?), ← projOpt (← a[9]?),
+        ← argAt (Option (String × String)) a 10, ← argAt (Option (List String)) a 11⟩
+      pure (toVal (gridModel (polyPredict coefs) coefs.length args))
+  | "bg_profile" => do
+      let coefs ← coefsOf (← a[0]?)
+      let pr ← projOpt (← a[4]?)
+      let pp : Option (Proj × Proj) ← match pr with
+        | none => some none
+        | some f => (f.inverse?).map fun g => some (f, g)
+      pure (tableVal (profileModel (polyPredict coefs) coefs.length (← argAt (Rat × Rat) a 1) (← argAt (Rat × Rat) a 2)
+        (← argAt Int a 3) pp (← argAt (List Rat) a 5) (← argAt (Option (String × String)) a 6)
+        (← argAt (Option (List String)) a 7)))
+  | "bg_scatter" => do
+      let coefs ← coefsOf (← a[0]?)
+      pure (tableVal (scatterModel (polyPredict coefs) coefs.length (← argAt (Option (List Rat)) a 1)
+        (← argAt (Option (List Rat)) a 2) (← argAt (List Rat) a 3) (← argAt (List Rat) a 4) (← argAt (List Rat) a 5)
+        (← projOpt (← a[6]?)) (← argAt (Option (String × String)) a 7) (← argAt (Option (List String)) a 8)))
+  | _ => none
+
 def dispatchers : List (String → List Val → Option Val) :=
-  [opsCoords, opsBlocks, opsWindows, opsGrid, opsCV, opsScore]
+  [opsCoords, opsBlocks, opsWindows, opsGrid, opsCV, opsScore, opsGridder]
 
 def runLine (line : String) : String :=
   match Val.parseLine line with
